@@ -227,7 +227,9 @@ pub fn c08_families(tier: &str) -> Vec<Family> {
         v.push(fam_hist(US, 2, "w12", &ORD_ONE));
         v.push(fam_hist(US, 3, "w12", &ORD_ONE));
         v.push(fam(US, 3, "wtiny", &ORD_ONE));
+        v.push(fam(DS, 3, "w123", &ORD_ONE));
     } else {
+        v.push(fam(DS, 3, "w123", &ORD_ALL));
         v.extend(route_small("w12", true));
         v.extend(hist_small("w12", false));
         v.push(fam(US, 3, "wtiny", &ORD_ONE));
